@@ -33,7 +33,10 @@ package notifier
 //                               rs <now> <c|g> <list>  the same, but the storage request (cluster list / first consumer
 //                                        list) is not taken off App.StorageChannel within the 1 s timeout
 //                               ue <now> clock := now; complete the pending Unlock() with an ERROR
-//                             cases with rs / ue run in a child process each (in parallel): HEAD panics on a failing
+//                               a <mode> from now on every evaluator request is ANSWERED through the real reply path
+//                                        (nc.evaluatorResponse -> responseLoop -> checkAndSendResponseToModules ->
+//                                        notifyModule): none | nil | nf | ok | warn | err | stop | stall | rewind
+//                             cases with rs / ue / a run in a child process each (in parallel): HEAD panics on a failing
 //                             Unlock() -- the death of the child is the outcome PANIC
 //
 // Loop scenarios use the real clock and run in parallel on separate Coordinators; pace cases run afterwards, serially.
@@ -640,6 +643,9 @@ func vCfg(f []string, sink func(string)) (res string) {
 	var mu sync.Mutex
 	var got []string
 	var hold atomic.Int32
+	var ansMode atomic.Int64 // -2: requests are not answered; -1: a nil reply; >= 0: a reply with that status
+	var answered atomic.Int64
+	ansMode.Store(-2)
 	stop := make(chan struct{})
 	go func() {
 		for {
@@ -660,6 +666,17 @@ func vCfg(f []string, sink func(string)) (res string) {
 					got = append(got, r.Group)
 				}
 				mu.Unlock()
+				// the evaluator's side: answer the request through the real reply path (responseLoop ->
+				// checkAndSendResponseToModules -> notifyModule), status as scripted by the latest `a` event
+				switch st := ansMode.Load(); {
+				case st == -1:
+					r.Reply <- nil
+				case st >= 0:
+					r.Reply <- &protocol.ConsumerGroupStatus{Cluster: r.Cluster, Group: r.Group,
+						Status: protocol.StatusConstant(st), Complete: 1.0, Partitions: make([]*protocol.PartitionStatus, 0),
+						TotalPartitions: 1, TotalLag: 10}
+					answered.Add(1)
+				}
 			case <-time.After(300 * time.Microsecond):
 			case <-stop:
 				return
@@ -937,6 +954,15 @@ func vCfg(f []string, sink func(string)) (res string) {
 				o = "!" + o
 			}
 			put(o)
+		case "a":
+			// from now on the evaluator answers: none | nil | nf | ok | warn | err | stop | stall | rewind
+			modes := map[string]int64{"none": -2, "nil": -1, "nf": 0, "ok": 1, "warn": 2, "err": 3, "stop": 4, "stall": 5, "rewind": 6}
+			v, ok := modes[next()]
+			if !ok {
+				return "BADEVENT"
+			}
+			ansMode.Store(v)
+			put("A")
 		case "e":
 			if lock.unlockCalls.Load() > sentUnlock {
 				lock.unlockRes <- nil
@@ -1210,7 +1236,7 @@ func TestVerifProbeEvalloop(t *testing.T) {
 
 func vIsIsolated(f []string) bool {
 	for _, x := range f {
-		if x == "ue" || x == "rs" {
+		if x == "ue" || x == "rs" || x == "a" {
 			return true
 		}
 	}
@@ -1272,7 +1298,7 @@ func vCfgEventKinds(f []string) []string {
 		ev := f[i]
 		kinds = append(kinds, ev)
 		switch ev {
-		case "k", "t", "ue":
+		case "k", "t", "ue", "a":
 			i += 2
 		case "e", "x":
 			i++
